@@ -15,7 +15,7 @@ func propC03() Property {
 		ID: "C03",
 		Explanation: "R1 (clip guard): the requested end is replaced by (next outbound − 1) exactly under {end = 0 ∧ BeginString ≥ FIX.4.2} ∨ {end = 999999 ∧ BeginString ≤ FIX.4.2} ∨ {end ≥ next outbound}, and the replay runs from the requested begin to that end. " +
 			"R2 (stamping order): the replay stamper sets PossDupFlag(43)=Y and OrigSendingTime(122) ← SendingTime(52) read BEFORE tag 52 is rewritten, then rewrites tag 52. R3: a stored message is re-sent only when it is not administrative and the application's resend callback agreed; otherwise its number is covered by a gap fill. " +
-			"R4 (body identity): replayed bytes are buildWithBodyBytes(bodyBytes of the message parsed from the stored bytes), under its original MsgSeqNum (tag 34 is not touched by the stamper). R5 (gap fill): SequenceReset(4) with MsgSeqNum(34) ← begin parameter, NewSeqNo(36) ← end parameter, GapFillFlag(123)=Y, PossDupFlag(43)=Y; gap fills are emitted before a re-sent message when numbers were skipped and after the loop for the tail, with NewSeqNo = the next number replayed. R6 (what bodyBytes is): in the message parser the mark that ends the body (trailerBytes ← remaining bytes) is moved only after a field that was classified as a body field or group member — never after the header/trailer field that terminates a repeating group — so the bytes replayed as the body exclude CheckSum/Signature.",
+			"R4 (body identity): replayed bytes are buildWithBodyBytes(bodyBytes of the message parsed from the stored bytes), under its original MsgSeqNum (tag 34 is not touched by the stamper). R5 (gap fill): SequenceReset(4) with MsgSeqNum(34) ← begin parameter, NewSeqNo(36) ← end parameter, GapFillFlag(123)=Y, PossDupFlag(43)=Y; gap fills are emitted before a re-sent message when numbers were skipped and after the loop for the tail, with NewSeqNo = the next number replayed; the end of the tail gap fill is a cursor the replay callback advances past EVERY message it returns nil for (re-sent, administrative or declined), to that message's number + 1. R6 (what bodyBytes is): in the message parser the mark that ends the body (trailerBytes ← remaining bytes) is moved only after a field that was classified as a body field or group member — never after the header/trailer field that terminates a repeating group — so the bytes replayed as the body exclude CheckSum/Signature.",
 		NotDecided: "contiguity of coverage as arithmetic over the stored history (the seqNum/nextSeqNum bookkeeping over all histories); byte-for-byte identity of the transmitted frame.",
 		Rules: []RuleDef{
 			{ID: "C03-R1", Desc: "ResendRequest range clipping", Min: 2, Run: c03R1},
@@ -345,6 +345,69 @@ func c03R5(c *Ctx) {
 	}
 	if inCb == 0 || afterLoop == 0 {
 		c.Violation(FuncName(replay), p.Pos(replay.Pos()), "gapfill-placement", fmt.Sprintf("gap fills: %d inside the replay loop, %d after it (need both: skipped numbers before a re-sent message, and the tail)", inCb, afterLoop))
+	}
+	// the tail cursor: the variable that bounds the tail gap fill is advanced past EVERY message the
+	// callback has dealt with (re-sent, administrative or declined) before the callback returns nil
+	var cursor *ssa.Alloc
+	for _, cl := range Calls(replay) {
+		if cal := cl.Common().StaticCallee(); cal != nil && isBuilder(cal) && InstrDominates(iter, cl) {
+			a := cl.Common().Args
+			if ld, ok := stripConv(a[len(a)-2]).(*ssa.UnOp); ok {
+				if al, ok := ld.X.(*ssa.Alloc); ok {
+					cursor = al
+				}
+			}
+		}
+	}
+	var cursorFV *ssa.FreeVar
+	if cursor != nil {
+		for _, ref := range *cursor.Referrers() {
+			if mc, ok := ref.(*ssa.MakeClosure); ok && mc.Fn == ssa.Value(cb) {
+				for i, b := range mc.Bindings {
+					if b == ssa.Value(cursor) && i < len(cb.FreeVars) {
+						cursorFV = cb.FreeVars[i]
+					}
+				}
+			}
+		}
+	}
+	if cursorFV == nil {
+		c.Violation(FuncName(replay), p.Pos(replay.Pos()), "tail-cursor", "the end of the tail gap fill is not a variable the replay callback maintains: numbers dealt with by the callback but not re-sent cannot be covered")
+	} else {
+		mf := &MustFlow{Fn: cb}
+		mf.Transfer = func(in ssa.Instruction, s Set) {
+			if st, ok := in.(*ssa.Store); ok && st.Addr == ssa.Value(cursorFV) {
+				s["cursor"] = true
+			}
+		}
+		for r, s := range mf.AtReturns() {
+			if !p.Origin(r.Results[len(r.Results)-1]).IsNil() {
+				continue
+			}
+			c.Check(s["cursor"], FuncName(cb), p.InstrPos(r), "tail-cursor-advanced", "every message the callback has dealt with advances the tail cursor",
+				"the replay callback returns nil on a path that does not advance the variable bounding the tail gap fill: when the last messages of the range are skipped (administrative or declined by the application) the reply ends short of the requested range and the peer keeps waiting for those numbers")
+		}
+		// and it advances to the number after this message
+		ForEachInstr(cb, func(in ssa.Instruction) {
+			st, ok := in.(*ssa.Store)
+			if !ok || st.Addr != ssa.Value(cursorFV) {
+				return
+			}
+			vo := p.ContentOrigin(st.Val)
+			okV := vo.Mentions(func(x *Org) bool { return x.IsCallTo("(FieldMap).GetInt") && x.ArgConstInt(0, t34) }) && vo.Mentions(func(x *Org) bool { return x.IsConstInt(1) })
+			if !okV {
+				// a copy of the other cursor, itself set to sent+1 in the same block
+				if ld, isLd := stripConv(st.Val).(*ssa.UnOp); isLd {
+					if _, isFV := ld.X.(*ssa.FreeVar); isFV {
+						okV = true
+					}
+				}
+				if bo, isB := stripConv(st.Val).(*ssa.BinOp); isB && bo.Op == token.ADD {
+					okV = p.Origin(bo.X).IsCallTo("(FieldMap).GetInt") || p.Origin(bo.Y).IsCallTo("(FieldMap).GetInt")
+				}
+			}
+			c.Check(okV, FuncName(cb), p.InstrPos(st), "tail-cursor-value", "tail cursor ← MsgSeqNum of this message + 1", "the tail cursor is set to "+vo.String()+", not to the number after the message just dealt with")
+		})
 	}
 	// no-persist mode: whole range gap-filled to end+1
 	for _, cl := range Calls(replay) {
